@@ -24,6 +24,7 @@ typedef struct {
 	bool merge, dupsort;
 	int failkey;                /* -1 or universe index whose merge fails */
 	int failnth;                /* fail on the n-th callback invocation for that key (1-based) */
+	int failstyle;              /* how the callback reports failure: 0 = stores NULL into *merged_val, 1 = returns without touching its out-parameters */
 } family;
 
 /* source values: unique tags "s<src>k<key>" padded with dots for multi-block sources */
@@ -72,11 +73,11 @@ static struct mtbl_iter *us_prefix(void *c, const uint8_t *k, size_t kl) { retur
 static struct mtbl_iter *us_range(void *c, const uint8_t *a, size_t al, const uint8_t *b, size_t bl) { return uit_make(c, 3, a, al, b, bl); }
 
 /* ---- merge / dupsort callbacks ---- */
-static int g_merge_calls, g_failkey = -1, g_failnth, g_calls_for_key[NU];
+static int g_merge_calls, g_failkey = -1, g_failnth, g_failstyle, g_calls_for_key[NU];
 static void fold_merge(void *clos, const uint8_t *key, size_t kl, const uint8_t *v0, size_t l0, const uint8_t *v1, size_t l1, uint8_t **out, size_t *outl) {
 	(void) clos; g_merge_calls++;
 	int ki = -1; for (int i = 0; i < NU; i++) if (UK[i].n == kl && !memcmp(UK[i].b, key, kl)) ki = i;
-	if (ki >= 0) { g_calls_for_key[ki]++; if (ki == g_failkey && g_calls_for_key[ki] == g_failnth) { *out = NULL; *outl = 0; return; } }
+	if (ki >= 0) { g_calls_for_key[ki]++; if (ki == g_failkey && g_calls_for_key[ki] == g_failnth) { if (g_failstyle == 0) { *out = NULL; *outl = 0; } return; } }
 	*outl = l0 + l1 + 3; *out = malloc(*outl);
 	(*out)[0] = '('; memcpy(*out + 1, v0, l0); (*out)[1 + l0] = '+'; memcpy(*out + 2 + l0, v1, l1); (*out)[2 + l0 + l1] = ')';
 }
@@ -131,7 +132,7 @@ static int lb_key(const uint8_t *k, size_t kl) { int i = 0; while (i < NU && vh_
 
 static int ms_open(void *ctx) {
 	msys *S = ctx; family *F = &S->F;
-	g_merge_calls = 0; memset(g_calls_for_key, 0, sizeof g_calls_for_key); g_failkey = F->failkey; g_failnth = F->failnth;
+	g_merge_calls = 0; memset(g_calls_for_key, 0, sizeof g_calls_for_key); g_failkey = F->failkey; g_failnth = F->failnth; g_failstyle = F->failstyle;
 	struct mtbl_merger_options *mo = mtbl_merger_options_init();
 	if (F->merge) mtbl_merger_options_set_merge_func(mo, fold_merge, NULL);
 	if (F->dupsort) mtbl_merger_options_set_dupsort_func(mo, rev_dupsort, NULL);
@@ -296,7 +297,7 @@ static uint64_t ms_canon(void *ctx) {
 static const char *fam_desc(const family *F, const ispec *sp) {
 	static char b[200]; int o = snprintf(b, sizeof b, "M:%d:", F->k);
 	for (int s = 0; s < F->k; s++) o += snprintf(b + o, sizeof b - o, "%c%d,", F->kind[s], F->mask[s]);
-	snprintf(b + o, sizeof b - o, ":%d%d:%d.%d:%d,%d,%d", F->merge, F->dupsort, F->failkey, F->failnth, sp->kind, sp->a, sp->b);
+	snprintf(b + o, sizeof b - o, ":%d%d:%d.%d:%d,%d,%d", F->merge, F->dupsort, F->failkey, F->failnth + 100 * F->failstyle, sp->kind, sp->a, sp->b);
 	return b;
 }
 static const char *ms_explain(void *ctx, const int *ops, int nops) {
@@ -366,16 +367,17 @@ static void do_drain(void) {
 static void do_fail(void) {
 	for (int fk = 0; fk < NU; fk++) {
 		int c = __builtin_popcount(srcs_with(&S.F, fk));
-		for (int nth = 1; nth < c; nth++) for (int ds = 0; ds < 2; ds++) {
-			S.F.merge = true; S.F.dupsort = ds; S.F.failkey = fk; S.F.failnth = nth; S.sp = SPECS[0];
+		for (int nth = 1; nth < c; nth++) for (int ds = 0; ds < 2; ds++) for (int st = 0; st < 2; st++) {
+			S.F.merge = true; S.F.dupsort = ds; S.F.failkey = fk; S.F.failnth = nth; S.F.failstyle = st; S.sp = SPECS[0];
 			int ops[16]; int n = 0; for (int i = 0; i < NU + 1; i++) ops[n++] = 0;
 			vh_case_begin(render, &S);
 			bfs_replay(&BS, ops, n, NULL);
 			VH_COUNT("states", 1); VH_COUNT("failing_callback_runs", 1);
 			vh_case_end();
-			vh_sig(vh_mix(vh_mix(fk, nth), c));
+			vh_sig(vh_mix(vh_mix(fk, nth), c * 2 + st));
 		}
 	}
+	S.F.failstyle = 0;
 }
 static int g_treedepth;
 static void do_bfs(void) {
@@ -412,7 +414,7 @@ int main(int argc, char **argv) {
 		if (sscanf(s, "M:%d:%n", &S.F.k, &off) < 1) return 2; s += off;
 		for (int i = 0; i < S.F.k; i++) { if (sscanf(s, "%c%d,%n", &S.F.kind[i], &S.F.mask[i], &off) < 2) return 2; s += off; }
 		if (sscanf(s, ":%1d%1d:%d.%d:%d,%d,%d:%n", &mg, &ds, &S.F.failkey, &S.F.failnth, &S.sp.kind, &S.sp.a, &S.sp.b, &off) < 7) return 2; s += off;
-		S.F.merge = mg; S.F.dupsort = ds;
+		S.F.merge = mg; S.F.dupsort = ds; S.F.failstyle = S.F.failnth / 100; S.F.failnth %= 100;
 		int ops[BFS_MAXD + 2], n = 0;
 		while (*s && n < BFS_MAXD) { int v, o2; if (sscanf(s, "%d%n", &v, &o2) < 1) break; ops[n++] = v; s += o2; if (*s == '.') s++; }
 		family_images(&S);
